@@ -35,7 +35,13 @@ def sc_trial(V, table="e", n=2, default="none", molecular=False, with_disp=True,
         from quansino.moves.displacement import DisplacementMove
         from quansino.operations.displacement import Box
 
-        mc.add_move(DisplacementMove(labels.copy(), Box(0.2)), name="disp", probability=0.0)
+        if with_disp == "regroup":
+            # a second label-bearing move that groups the atoms differently (its own, independent labeling):
+            # a particle of the exchange move may be only part of a group of this one
+            own = mcsim.labels_for(V, n, -1, 1, name="dl")
+            mc.add_move(DisplacementMove(own, Box(0.2)), name="disp", probability=0.0)
+        else:
+            mc.add_move(DisplacementMove(labels.copy(), Box(0.2)), name="disp", probability=0.0)
         if with_disp == "nested":
             # a composite in which the same two objects recur non-adjacently: (a + b) * 2 = [a, b, a, b]
             from quansino.mc.criteria import CanonicalCriteria
@@ -129,10 +135,12 @@ def _plan(tier):
     P.append(("trial", dict(table="e+e", n=2, default="none", molecular=False, with_disp=True), R))
     P.append(("trial", dict(table="e", n=2, default="none", molecular=False, with_disp=True, check=True), R + ("failed",)))
     P.append(("trial", dict(table="e", n=2, default="five", molecular=False, with_disp="nested"), R))
+    P.append(("trial", dict(table="e", n=2, default="none", molecular=False, with_disp="regroup"), R))
     P.append(("trial", dict(table="swap", n=2, default="five", molecular=False, with_disp=True), ("rejected", "accepted")))
     P.append(("trial", dict(table="swap", n=3, default="none", molecular=True, with_disp=True), ("rejected", "accepted")))
     if not q:
         P.append(("trial", dict(table="e", n=3, default="zero", molecular=True, with_disp=True), R))
+        P.append(("trial", dict(table="e", n=3, default="none", molecular=False, with_disp="regroup"), R))
         P.append(("trial", dict(table="e2", n=3, default="five", molecular=False, with_disp=True), R))
         P.append(("trial", dict(table="e+e", n=3, default="none", molecular=True, with_disp=False), R))
         P.append(("trial", dict(table="e", n=3, default="none", molecular=False, with_disp=True), R))
